@@ -85,6 +85,9 @@ inductive Op where
   | cancel (e : Nat)
   | timer
   | close
+  /-- udp upstream only: the server answers with TC=1, the exchange goes on over the TCP leg
+      (`udpWithFallback`); the caller still waits, so the close protocol's state is unchanged. -/
+  | trunc (e : Nat)
   deriving DecidableEq, Repr
 
 def St.hasEx (s : St) (e : Nat) : Bool := s.exs.any (·.id == e)
@@ -185,6 +188,7 @@ def step (s : St) : Op → St
   | .cancel e => cancelOp s e
   | .timer => timerOp s
   | .close => closeOp s
+  | .trunc _ => s
 
 def run (s : St) (ops : List Op) : St := ops.foldl step s
 
@@ -225,8 +229,9 @@ structure Obs where
   atClose : List Nat
   deriving DecidableEq, Repr
 
-def isStart : Op → Bool | .start _ _ => true | _ => false
 def startId : Op → Option Nat | .start e _ => some e | _ => none
+/-- the script uses a dialer that ignores the cancellation of its context -/
+def isStubStart : Op → Bool | .start _ true => true | _ => false
 
 /-- written from the property text.  For a script that closes the transport:
     every Close returns (also the repeated ones); no exchange is left hanging at the end; an exchange that is
@@ -249,7 +254,7 @@ def spec (auto : Bool) (ops0 : List Op) (o : Obs) : Bool :=
     (before.filterMap startId).all (fun e => before.contains (.reply e) ||
         o.res.all (fun p => p.1 != e || p.2 != "ok")) &&
     o.openConns == 0 &&
-    (ops.any (fun op => match op with | .start _ true => true | _ => false) || o.atClose.isEmpty)
+    (ops.any isStubStart || o.atClose.isEmpty)
 
 def strOfRes : Option Res → String
   | none => "pend" | some .ok => "ok" | some .err => "err" | some .ctx => "ctx"
@@ -270,7 +275,7 @@ def obsOf (ncloses : Nat) (s : St) : Obs :=
 
 /-! ### line protocol
   case: `k=<reuse|pipe|quic> auto=<0|1> ops=<op>,...` (further tokens are for the harness);
-        op: s<e> S<e> (stubborn dialer) d<e> f<e> r<e> c<e> t C
+        op: s<e> S<e> (stubborn dialer) d<e> f<e> r<e> c<e> t C T<e> (truncated UDP reply, udp upstream)
   out : `res=<e>:<r>,.. cl=<n|hang> open=<n> atc=<ids|-> dials=<n|->` -/
 
 def kindOfStr : String → Option Kind
@@ -286,7 +291,7 @@ def opOfStr (t : String) : Option Op :=
       match c with
       | 's' => some (.start n false) | 'S' => some (.start n true)
       | 'd' => some (.dialOk n) | 'f' => some (.dialErr n)
-      | 'r' => some (.reply n) | 'c' => some (.cancel n)
+      | 'r' => some (.reply n) | 'c' => some (.cancel n) | 'T' => some (.trunc n)
       | _ => none
     | none => none
   | [] => none
